@@ -26,13 +26,16 @@ Theorem C08_baseline_ascii_account :
 Proof. exact ascii_account_ok. Qed.
 Print Assumptions C08_baseline_ascii_account.
 
-Theorem C08_refuted_nonbmp_rune_columns :
+(* (the first witness of the pinned tree -- columns counted in runes, so that this range ended one
+   UTF-16 unit short -- was repaired in /repo: the lexer counts columns in UTF-16 code units) *)
+Theorem C08_sample_nonbmp_account :
   match hover_of t_emoji 1 5 with
-  | Some (HAccount, r) => covers (doc_lines t_emoji) r (bs "expenses:" ++ hx "f09f9880" ++ bs "fun") = false /\ ec r = 17
+  | Some (HAccount, r) =>
+      range_ok (doc_lines t_emoji) r && covers (doc_lines t_emoji) r (bs "expenses:" ++ hx "f09f9880" ++ bs "fun") = true /\ ec r = 18
   | _ => False
   end.
-Proof. exact nonbmp_account_short. Qed.
-Print Assumptions C08_refuted_nonbmp_rune_columns.
+Proof. exact nonbmp_account_covered. Qed.
+Print Assumptions C08_sample_nonbmp_account.
 
 Theorem C08_refuted_payee_estimate :
   match hover_of t_code 0 14 with
@@ -42,13 +45,15 @@ Theorem C08_refuted_payee_estimate :
 Proof. exact payee_estimate_wrong. Qed.
 Print Assumptions C08_refuted_payee_estimate.
 
-Theorem C08_refuted_fold_overlap :
+(* (the third witness of the pinned tree, overlapping folds of adjacent transactions -- [(0, 2); (2, 5)]
+   on this text -- was repaired in /repo: each fold now ends on its transaction's last line) *)
+Theorem C08_sample_adjacent_folds :
   match ranges_of t_adjacent with
-  | Some (_, fs) => fs = [(0, 2); (2, 5)] /\ folds_laminar fs = false
+  | Some (_, fs) => fs = [(0, 1); (2, 4)] /\ folds_laminar fs = true
   | None => False
   end.
-Proof. exact folds_overlap. Qed.
-Print Assumptions C08_refuted_fold_overlap.
+Proof. exact folds_adjacent. Qed.
+Print Assumptions C08_sample_adjacent_folds.
 
 (* partial well-formedness, every input: the line of every token the lexer produces lies inside the
    document (between 1 and 1 + the number of line feeds), lines never decrease along the stream and
